@@ -1,43 +1,122 @@
-"""run every stored seeded change against the check of its property (sequentially; scratch worktrees, scratch evidence)
-and write seeded/RESULTS.md + seeded/results.json.  Usage: run_all_seeds.py [ID ...]"""
-import json, re, subprocess, sys
+"""run every stored seeded change against the check of its property and write seeded/RESULTS.md + seeded/results.json.
+Each change is applied in a scratch worktree of /repo; the checks run from private copies of /verif (own build directory, own
+replays), several in parallel.  Usage: run_all_seeds.py [--workers K] [--extra C09-h:C20,C12-f:C11] [ID ...]"""
+import argparse
+import json
+import queue
+import re
+import shutil
+import subprocess
+import sys
+import threading
 from pathlib import Path
 
 VERIF = Path(__file__).resolve().parent.parent
-only = set(sys.argv[1:])
+SCRATCH = Path("/var/tmp/seedall")
+
+ap = argparse.ArgumentParser()
+ap.add_argument("--workers", type=int, default=4)
+ap.add_argument("--extra", default="C09-h:C20,C12-f:C11,C02-e:C11,C04-f:C03,C05-h:C03,C10-c:C20,C19-f:C13",
+                help="changes that are (also) run against the check that owns the changed code")
+ap.add_argument("ids", nargs="*")
+a = ap.parse_args()
+only = set(a.ids)
+extra = dict(x.split(":") for x in a.extra.split(",") if x)
+
+
+def sh(cmd, **kw):
+    p = subprocess.run(cmd, shell=isinstance(cmd, str), capture_output=True, text=True, **kw)
+    return p.returncode, p.stdout + p.stderr
+
+
+def worker_dir(k):
+    d = SCRATCH / f"verif-{k}"
+    if not d.exists():
+        d.parent.mkdir(parents=True, exist_ok=True)
+        sh(f"cp -a {VERIF} {d}")
+        shutil.rmtree(d / ".git", ignore_errors=True)
+    else:
+        sh(f"rsync -a --delete --exclude .git --exclude lean/.lake --exclude replays --exclude evidence {VERIF}/ {d}/")
+    return d
+
+
+def run_one(k, name, pid):
+    w = SCRATCH / f"repo-{k}"
+    sh(f"git -C /repo worktree remove --force {w}")
+    shutil.rmtree(w, ignore_errors=True)
+    sh(f"git -C /repo worktree add -q --detach {w} HEAD")
+    try:
+        rc, out = sh(f"git -C {w} apply {VERIF}/seeded/{name}/patch.diff")
+        if rc != 0:
+            return {"check": pid, "verdict": "patch does not apply"}
+        vd = worker_dir(k)
+        import os
+        rc, out = sh(["./check", pid], cwd=vd, env={**os.environ, "GALLIA_REPO": str(w), "VERIF_EVIDENCE_DIR": str(SCRATCH / f"ev-{k}")}, timeout=3000)
+        viol = [l for l in out.splitlines() if l.startswith("VIOLATION")]
+        nf = bool(viol) and all("no-failing-input-found" in v for v in viol)
+        key = ""
+        for v in viol:
+            if "no-failing-input-found" in v:
+                continue
+            try:
+                d = json.load(open(v.split("replay=")[1].split()[0]))
+                key = f"{d.get('key')} | {str(d.get('what'))[:220]}"
+                break
+            except Exception:
+                pass
+        verdict = ("caught (failing input)" if rc == 1 and not nf else "caught (no-failing-input-found)" if rc == 1
+                   else "MISSED" if rc == 0 else f"error (exit {rc})")
+        return {"check": pid, "exit": rc, "verdict": verdict, "first_replay": key[:300]}
+    finally:
+        sh(f"git -C /repo worktree remove --force {w}")
+        shutil.rmtree(w, ignore_errors=True)
+
+
+jobs = queue.Queue()
+for d in sorted((VERIF / "seeded").iterdir()):
+    if d.is_dir() and (not only or d.name.split("-")[0] in only):
+        jobs.put((d.name, d.name.split("-")[0]))
+        if d.name in extra:
+            jobs.put((d.name + "@" + extra[d.name], extra[d.name]))
 results = {}
 rp = VERIF / "seeded" / "results.json"
-if rp.exists():
+if only and rp.exists():
     results = json.loads(rp.read_text())
-for d in sorted((VERIF / "seeded").iterdir()):
-    if not d.is_dir():
-        continue
-    name = d.name
-    pid = name.split("-")[0]
-    if only and pid not in only:
-        continue
-    if not (VERIF / "harness" / "props" / f"{pid}.py").exists():
-        results[name] = {"check": pid, "verdict": "check not built"}
-        continue
-    out = subprocess.run([str(VERIF / "harness" / "run_seed.sh"), name, pid], capture_output=True, text=True).stdout
-    m = re.search(r"exit=(\d+)", out)
-    rc = int(m.group(1)) if m else -1
-    key = ""
-    lines = out.strip().splitlines()
-    if len(lines) > 1:
-        key = lines[-1].strip()
-    nf = "no-failing-input-found" in out
-    results[name] = {"check": pid, "exit": rc, "verdict": ("caught (failing input)" if rc == 1 and not nf else "caught (no-failing-input-found)" if rc == 1 else "MISSED" if rc == 0 else "error"),
-                     "first_replay": key[:300]}
-    print(name, results[name]["verdict"], flush=True)
+lock = threading.Lock()
+
+
+def loop(k):
+    while True:
+        try:
+            name, pid = jobs.get_nowait()
+        except queue.Empty:
+            return
+        try:
+            r = run_one(k, name.split("@")[0], pid)
+        except Exception as e:  # noqa: BLE001
+            r = {"check": pid, "verdict": "error: " + repr(e)[:120]}
+        with lock:
+            results[name] = r
+            print(name, r["verdict"], flush=True)
+
+
+ts = [threading.Thread(target=loop, args=(30 + i,)) for i in range(a.workers)]
+[t.start() for t in ts]
+[t.join() for t in ts]
 rp.write_text(json.dumps(results, indent=1, sort_keys=True))
-md = ["# Seeded changes vs checks", "", "| seeded change | what it does | needs | check | verdict | first replay |", "|---|---|---|---|---|---|"]
+md = ["# Seeded changes vs checks", "",
+      "Each change was written by a fresh sub-agent from the property text alone and confirmed by the orchestrator (demo passes on the unchanged "
+      "tree, fails with the patch, the pinned suite still passes). `name@CXX` rows: the change was (also) run against the check that owns the "
+      "changed code.", "",
+      "| seeded change | what it does | needs | check | verdict | first replay |", "|---|---|---|---|---|---|"]
 for name in sorted(results):
     meta = {}
-    mp = VERIF / "seeded" / name / "meta.json"
+    mp = VERIF / "seeded" / name.split("@")[0] / "meta.json"
     if mp.exists():
         meta = json.loads(mp.read_text())
     r = results[name]
-    esc = lambda s: str(s).replace("|", "\\|").replace("\n", " ")[:260]
-    md.append(f"| {name} | {esc(meta.get('summary',''))} | {esc(meta.get('needs',''))} | {r.get('check')} | {r.get('verdict')} | {esc(r.get('first_replay',''))} |")
+    esc = lambda s: str(s).replace("|", "\\|").replace("\n", " ")[:260]  # noqa: E731
+    md.append(f"| {name} | {esc(meta.get('summary', ''))} | {esc(meta.get('needs', ''))} | {r.get('check')} | {r.get('verdict')} | {esc(r.get('first_replay', ''))} |")
 (VERIF / "seeded" / "RESULTS.md").write_text("\n".join(md) + "\n")
+from collections import Counter
+print(Counter(r["verdict"] for r in results.values()))
